@@ -65,7 +65,7 @@ var evasionPool = map[string][]cfgPattern{
 	},
 }
 var suffixPool = map[string][]cfgPattern{
-	"unix":    {{`(?:\s|<|>).*`, []string{" ", "<", "> foo", " a b", "\t"}}, {`[\s<>].*`, []string{" x", "<"}}, {``, []string{""}}, {`(?:\$IFS|\$\{IFS\}|\s).*`, []string{"$IFS", "${IFS}x", " y"}}},
+	"unix":    {{`(?:\s|<|>).*`, []string{" ", "<", "> foo", " a b", "\t"}}, {`[\s<>].*`, []string{" x", "<"}}, {``, []string{""}}, {`(?:\$IFS|\s).*`, []string{"$IFS", "$IFSx", " y"}}},
 	"windows": {{`(?:[\s,;]|\.|/|<|>).*`, []string{",", ";x", " y", "./z", "<"}}, {`[\s,;].*`, []string{", a"}}, {``, []string{""}}},
 }
 var noSpacePool = map[string][]cfgPattern{
